@@ -118,6 +118,24 @@ func genC11(seed int64, tier string) *Scenario {
 	for i := 0; i < nPrefix; i++ {
 		op.Ops = append(op.Ops, mkCmd())
 	}
+	if rng.Intn(4) == 0 {
+		// Some targets fail their probes for a while before the restart, a
+		// command rewrites the state file meanwhile, and they recover before it:
+		// the file the restart reads was written while they were out of rotation.
+		var all []string
+		for _, t := range sc.Targets {
+			if rng.Intn(2) == 0 {
+				all = append(all, t.Addr)
+			}
+		}
+		wait := 2*3*time.Second + time.Second // two of the longest probe intervals in this world and a timeout
+		op.Ops = append(op.Ops, Op{Kind: "probe_mode", Targets: all, Sim: pick(rng, "status=500", "refuse", "hang")}, Op{Kind: "sleep", Delay: wait})
+		for i := 0; i < rng.Intn(3); i++ {
+			op.Ops = append(op.Ops, mkCmd())
+		}
+		op.Ops = append(op.Ops, Op{Kind: "rollout_stop", Service: "web"})
+		op.Ops = append(op.Ops, Op{Kind: "probe_mode", Targets: all, Sim: ""}, Op{Kind: "sleep", Delay: wait})
+	}
 	op.Ops = append(op.Ops, Op{Kind: "restore", Router: "B", From: "A", Tag: "restart"})
 	op.Ops = append(op.Ops, Op{Kind: "observe", Router: "A", Tag: "r0"}, Op{Kind: "observe", Router: "B", Tag: "r0"})
 	nSuffix := 1 + rng.Intn(6)
